@@ -1461,7 +1461,7 @@ def render_arg(ex, arg):
     raise Unsupported(f'Display of {v!r}')
 
 
-@native(r'^<(heapless::)?(vec::)?Vec<u8, .*> as (core::)?fmt::Write>::write_fmt$|^(core::)?fmt::Write::write_fmt$', 'fmt::Write::write_fmt for heapless::Vec<u8,N>')
+@native(r'^<(heapless::)?(vec::|string::)?(Vec<u8, .*>|String<.*>) as (core::)?fmt::Write>::write_fmt$|^(core::)?fmt::Write::write_fmt$', 'fmt::Write::write_fmt for heapless::Vec<u8,N> / String<N>')
 def n_fmt_write_fmt(ex, callee, a, env):
     w = deref(a[0])
     fa = a[1]
@@ -1476,9 +1476,17 @@ def n_fmt_write_fmt(ex, callee, a, env):
     return Ok(UNIT)
 
 
-@native(r'^<(heapless::)?(vec::)?Vec<u8, .*> as (core::)?fmt::Write>::write_str$', 'fmt::Write::write_str for heapless::Vec<u8,N>')
+@native(r'^<(heapless::)?(vec::|string::)?(Vec<u8, .*>|String<.*>) as (core::)?fmt::Write>::write_(str|char)$', 'fmt::Write::write_str for heapless::Vec<u8,N> / String<N>')
 def n_fmt_write_str(ex, callee, a, env):
     w = deref(a[0])
+    if callee.endswith('write_char'):
+        c = a[1]
+        if not isinstance(c, int) or c > 0x7F:
+            raise Unsupported('fmt::Write::write_char with a symbolic or non-ASCII char')
+        if len(w.items) + 1 > w.cap:
+            return Err(Adt('fmt::Error', None, []))
+        w.items.append(c)
+        return Ok(UNIT)
     sl = as_slice(a[1])
     if len(w.items) + sl.len > w.cap:
         return Err(Adt('fmt::Error', None, []))
@@ -2190,3 +2198,76 @@ def n_int_not(ex, callee, a, env):
     if isinstance(v, int):
         return mask(~v, signed, width)
     return ~v
+
+
+# ----------------------------------------------------------------------------- str::split_once / rsplit_once, integer pow
+def _char_set(p):
+    p = deref(p)
+    if isinstance(p, int):
+        return [p]
+    if isinstance(p, (list, Slice, HVec)):
+        items = list(as_slice(p).items())
+        if all(isinstance(c, int) for c in items):
+            return items
+    return None
+
+
+@native(r'^(core::)?str::<impl str>::(split_once|rsplit_once)(::<.*>)?$', 'str::split_once')
+def n_split_once(ex, callee, a, env):
+    sl = as_slice(a[0])
+    items = list(sl.items())
+    T = ex.truth
+    chars = _char_set(a[1]) if not (isinstance(deref(a[1]), Slice) and deref(a[1]).is_str) else None
+    rev = 'rsplit_once' in callee
+    if chars is not None and all(c < 0x80 for c in chars):
+        idx = range(len(items) - 1, -1, -1) if rev else range(len(items))
+        for i in idx:
+            if T(Or(*[_eq(items[i], c) for c in chars])):
+                return Some(Tup([Slice(sl.buf, sl.start, i, True), Slice(sl.buf, sl.start + i + 1, len(items) - i - 1, True)]))
+        return NONE()
+    pat = _pattern_bytes(a[1])
+    n = len(pat)
+    if n == 0:
+        raise Unsupported('split_once with an empty pattern')
+    starts = range(len(items) - n, -1, -1) if rev else range(0, len(items) - n + 1)
+    for i in starts:
+        if T(_all_eq(items[i:i + n], pat)):
+            return Some(Tup([Slice(sl.buf, sl.start, i, True), Slice(sl.buf, sl.start + i + n, len(items) - i - n, True)]))
+    return NONE()
+
+
+@native(r'(?:^|::)(?:num::<impl )?([iu](?:8|16|32|64|128|size))>?::(pow|checked_pow|wrapping_pow|saturating_pow)$', 'int::pow')
+def n_int_pow(ex, callee, a, env):
+    m = re.search(r'([iu](?:8|16|32|64|128|size))>?::(\w*pow)$', callee)
+    signed, width = int_info(m.group(1))
+    op = m.group(2)
+    base, e = deref(a[0]), deref(a[1])
+    e = ex.concretize(e, 0, 130)
+    lo, hi = (-(1 << (width - 1)), (1 << (width - 1)) - 1) if signed else (0, (1 << width) - 1)
+    if isinstance(base, int):
+        r = base ** e
+        fits = lo <= r <= hi
+        if op == 'pow':
+            if not fits:
+                raise Panic('attempt to multiply with overflow')
+            return r
+        if op == 'checked_pow':
+            return Some(r) if fits else NONE()
+        if op == 'saturating_pow':
+            return min(max(r, lo), hi)
+        return mask(r, signed, width)
+    # symbolic base: repeated checked multiplication
+    from .engine import int_arith
+    acc = 1
+    for _ in range(e):
+        t = int_arith(ex, 'Mul', acc, base, signed, width, True)
+        ov = t.f[1]
+        if (ov is True) or (is_sym(ov) and ex.truth(ov)):
+            if op == 'pow':
+                raise Panic('attempt to multiply with overflow')
+            if op == 'checked_pow':
+                return NONE()
+            if op == 'saturating_pow':
+                raise Unsupported('saturating_pow overflow on a symbolic base')
+        acc = t.f[0]
+    return Some(acc) if op == 'checked_pow' else acc
